@@ -1,9 +1,11 @@
 (** Proofs/KeyMelodyInput.v — KeyMelodyEncoderDecoder.events_to_input (C08): whenever the call
     returns, the vector has exactly input_size entries (all passes write in place). *)
 From Coq Require Import ZArith List Bool Lia ZifyBool.
-From NS Require Import Gen.G08 Model.EncDec Model.Lookback Model.KeyMelody Proofs.EncDec.
+From NS Require Import Gen.G08 Model.EncDec Model.Lookback Model.KeyMelody Proofs.EncDec Proofs.Lookback
+  Proofs.LookbackInput Proofs.KeyMelody.
 Import ListNotations.
 Local Open Scope Z_scope.
+Ltac Zify.zify_post_hook ::= Z.to_euclidean_division_equations.
 
 Lemma pass_flags_length fl : forall st st', pass_flags fl st = Some st' -> zlen (fst st') = zlen (fst st).
 Proof.
@@ -41,7 +43,7 @@ Qed.
      all events of es valid -> 0 <= p < len es ->
      exists v, km_input min_note note_range dists bits es p = Some v /\ zlen v = km_input_size note_range dists bits.
    Proved: the length part, for every call that returns. *)
-Theorem keymelody_input_length_partial min_note note_range dists bits es p v :
+Theorem keymelody_input_length_any min_note note_range dists bits es p v :
   0 <= km_input_size note_range dists bits ->
   km_input min_note note_range dists bits es p = Some v ->
   zlen v = km_input_size note_range dists bits.
@@ -76,3 +78,315 @@ Proof.
   destruct (snd s7 =? km_input_size note_range dists bits); [|discriminate].
   inversion H; subst. lia.
 Qed.
+
+(** * Full strength: events_to_input returns, with the documented block structure *)
+
+(* facts about the regenerated constants *)
+Lemma K_octave_nonneg : 0 <= K_NOTES_PER_OCTAVE.
+Proof. unfold K_NOTES_PER_OCTAVE. lia. Qed.
+Lemma K_min_event_le_specials : K_MIN_MELODY_EVENT <= K_NO_EVENT /\ K_MIN_MELODY_EVENT <= K_NOTE_OFF /\
+  K_MIN_MELODY_EVENT <= 0 /\ K_NO_EVENT <= K_MAX_MELODY_EVENT /\ K_NOTE_OFF <= K_MAX_MELODY_EVENT.
+Proof. unfold K_MIN_MELODY_EVENT, K_MAX_MELODY_EVENT, K_NO_EVENT, K_NOTE_OFF. lia. Qed.
+
+(* the stage lemmas in "re-associated" form: the output state of one is the input state of the next *)
+Lemma pass_flags_stage fl : forall pre M, 0 <= M ->
+  pass_flags fl (pre ++ zeros (zlen fl + M), zlen pre) =
+  Some ((pre ++ map b2z fl) ++ zeros M, zlen (pre ++ map b2z fl)).
+Proof.
+  induction fl as [|f fl IH]; intros pre M HM.
+  - cbn [pass_flags map]. rewrite zlen_nil, app_nil_r. replace (0 + M) with M by lia. reflexivity.
+  - cbn [pass_flags fst snd map]. rewrite zlen_cons. pose proof (zlen_nonneg fl).
+    replace (1 + zlen fl + M) with (1 + (zlen fl + M)) by lia.
+    assert (Hstep : (if f then py_set (pre ++ zeros (1 + (zlen fl + M))) (zlen pre) 1
+                     else Some (pre ++ zeros (1 + (zlen fl + M)))) =
+                    Some ((pre ++ [b2z f]) ++ zeros (zlen fl + M))).
+    { destruct f; cbn [b2z]; [rewrite set_cell by lia|rewrite skip_cell by lia]; now rewrite <- app_assoc. }
+    rewrite Hstep. cbn [bind].
+    replace (zlen pre + 1) with (zlen (pre ++ [b2z f])) by (rewrite zlen_app; reflexivity).
+    rewrite IH by lia. rewrite <- !app_assoc. reflexivity.
+Qed.
+
+Lemma pass_counter_stage m0 is pre M : 0 <= M ->
+  lb_pass_counter is m0 (pre ++ zeros (zlen is + M), zlen pre) =
+  Some ((pre ++ map (counter_bit m0) is) ++ zeros M, zlen (pre ++ map (counter_bit m0) is)).
+Proof.
+  intros. rewrite pass_counter_spec by lia. rewrite zlen_app, zlen_map, <- app_assoc. reflexivity.
+Qed.
+
+Lemma pass_repeat_stage E eqb es p ds fs pre M :
+  Forall2 (fun d f => lb_repeats E eqb es p d = Some f) ds fs -> 0 <= M ->
+  lb_pass_repeat E eqb ds es p (pre ++ zeros (zlen ds + M), zlen pre) =
+  Some ((pre ++ map b2z fs) ++ zeros M, zlen (pre ++ map b2z fs)).
+Proof.
+  intros Hf HM. rewrite (pass_repeat_spec E eqb es p ds fs Hf) by lia.
+  rewrite zlen_app, zlen_map, <- app_assoc.
+  replace (zlen fs) with (zlen ds) by (unfold zlen; f_equal; eapply Forall2_len; eauto). reflexivity.
+Qed.
+
+Lemma key_flags_length l : zlen (key_flags l) = K_NOTES_PER_OCTAVE.
+Proof.
+  unfold key_flags, key_hist. rewrite !zlen_map. unfold zlen. rewrite zrange_length.
+  pose proof K_octave_nonneg. lia.
+Qed.
+
+(* max(histogram) is attained: at least one key is flagged *)
+Lemma fold_max_in r : forall x, In (fold_left Z.max r x) (x :: r).
+Proof.
+  induction r as [|y r IH]; intros x; cbn [fold_left]; [now left|].
+  destruct (IH (Z.max x y)) as [H|H]; [|right; now right].
+  destruct (Z.max_spec x y) as [[_ Hm]|[_ Hm]]; rewrite Hm in H; [right; left|left]; congruence.
+Qed.
+
+Lemma key_flags_some l : existsb (fun b => b) (key_flags l) = true.
+Proof.
+  unfold key_flags. set (h := key_hist l).
+  assert (h <> []) as Hne.
+  { intros Heq. assert (zlen h = K_NOTES_PER_OCTAVE) as Hl.
+    { unfold h, key_hist. rewrite zlen_map. unfold zlen. rewrite zrange_length. pose proof K_octave_nonneg. lia. }
+    rewrite Heq in Hl. unfold K_NOTES_PER_OCTAVE, zlen in Hl. cbn in Hl. lia. }
+  destruct h as [|x r]; [congruence|].
+  apply existsb_exists. exists true. split; [|reflexivity].
+  apply in_map_iff. exists (zmax_list (x :: r)). split; [apply Z.eqb_refl|].
+  unfold zmax_list. apply fold_max_in.
+Qed.
+
+Lemma In_firstn {A} (x : A) n : forall l, In x (firstn n l) -> In x l.
+Proof.
+  induction n as [|n IH]; intros [|y l] H; cbn in H; try contradiction.
+  destruct H as [H|H]; [now left|right; auto].
+Qed.
+
+Section KeyMelodyInput.
+  Variables min_note note_range : Z.
+  Hypothesis mn_nonneg : 0 <= min_note.
+  Hypothesis nr_nonneg : 0 <= note_range.
+  Hypothesis max_ok : min_note + note_range <= K_MAX_MELODY_EVENT + 1.
+
+  Let valid a := km_valid min_note note_range a = true.
+  Definition pitch_ok (x : Z) : Prop := min_note <= x < min_note + note_range.
+
+  Lemma valid_cases a : valid a -> a = K_NO_EVENT \/ a = K_NOTE_OFF \/ pitch_ok a.
+  Proof. unfold valid, km_valid, pitch_ok. intros H. lia. Qed.
+
+  Lemma valid_no_event : valid K_NO_EVENT.
+  Proof. unfold valid, km_valid. rewrite Z.eqb_refl. reflexivity. Qed.
+
+  (** ** Melody(events): accepted, same length, still valid *)
+  Lemma km_clean_length l : length (km_clean l) = length l.
+  Proof. induction l as [|e r IH]; cbn [km_clean]; [reflexivity|]. destruct (km_special e); cbn; auto. Qed.
+
+  Lemma km_clean_valid l : Forall valid l -> Forall valid (km_clean l).
+  Proof.
+    induction 1 as [|e r He Hr IH]; cbn [km_clean]; [constructor|].
+    destruct (km_special e); constructor; auto. apply valid_no_event.
+  Qed.
+
+  Lemma km_melody_ok l : Forall valid l -> km_melody l = Some (km_clean l).
+  Proof.
+    intros Hv. unfold km_melody.
+    assert (forallb (fun e => (K_MIN_MELODY_EVENT <=? e) && (e <=? K_MAX_MELODY_EVENT)) l = true) as ->; [|reflexivity].
+    apply forallb_forall. intros e He. rewrite Forall_forall in Hv. apply Hv, valid_cases in He.
+    pose proof K_min_event_le_specials. unfold pitch_ok in He. lia.
+  Qed.
+
+  (** ** the scan over sub_melody keeps current_note and last_3_notes inside the pitch range *)
+  Definition scan_inv (s : km_state) : Prop :=
+    (forall c, km_cur s = Some c -> pitch_ok c) /\ Forall pitch_ok (km_last3 s).
+
+  Lemma remove_first_Forall (P : Z -> Prop) x l : Forall P l -> Forall P (remove_first x l).
+  Proof.
+    induction 1 as [|y r Hy Hr IH]; cbn [remove_first]; [constructor|].
+    destruct (x =? y); [assumption|constructor; auto].
+  Qed.
+
+  Lemma deque3_Forall (P : Z -> Prop) l x : Forall P l -> P x -> Forall P (deque3_append l x).
+  Proof.
+    intros Hl Hx. unfold deque3_append.
+    assert (Forall P (l ++ [x])) as H by (apply Forall_app; split; auto).
+    destruct (3 <? zlen (l ++ [x])); [|exact H].
+    destruct (l ++ [x]); cbn [tl]; [constructor|]. now inversion H.
+  Qed.
+
+  Lemma km_step_inv s note : valid note -> scan_inv s -> scan_inv (km_step s note).
+  Proof.
+    intros Hv [Hc Hl]. unfold km_step.
+    destruct (note =? K_NO_EVENT) eqn:H1; [split; cbn; auto|].
+    destruct (note =? K_NOTE_OFF) eqn:H2; [split; cbn; auto; discriminate|].
+    assert (pitch_ok note) as Hp by (destruct (valid_cases note Hv) as [?|[?|?]]; [lia|lia|assumption]).
+    split; cbn [km_cur km_last3].
+    - intros c Hc'. inversion Hc'; subst. exact Hp.
+    - apply deque3_Forall; [|exact Hp]. destruct (existsb _ _); [apply remove_first_Forall|]; exact Hl.
+  Qed.
+
+  Lemma km_scan_inv sub : Forall valid sub -> scan_inv (km_scan sub).
+  Proof.
+    unfold km_scan. intros Hv.
+    assert (forall s, scan_inv s -> scan_inv (fold_left km_step sub s)) as H.
+    { induction Hv as [|e r He _ IH]; intros s Hs; cbn [fold_left]; [exact Hs|]. apply IH. now apply km_step_inv. }
+    apply H. split; cbn; [discriminate|constructor].
+  Qed.
+
+  Lemma pitch_ok_valid l : Forall pitch_ok l -> Forall valid l.
+  Proof.
+    apply Forall_impl. intros a Ha. unfold valid, km_valid, pitch_ok in *.
+    destruct ((min_note <=? a) && (a <? min_note + note_range)) eqn:?; [|lia]. now rewrite orb_true_r.
+  Qed.
+
+  (** ** the first write: pitch cell + "note playing" cell, or the "silence" cell *)
+  Lemma km_stage1 cur M :
+    0 <= M -> (forall c, cur = Some c -> pitch_ok c) ->
+    let v0 := zeros (note_range + (1 + (1 + M))) in
+    exists head,
+      match cur with
+      | Some c => if c =? 0 then py_set v0 (note_range + 1) 1
+                  else v <- py_set v0 (c - min_note) 1 ;; py_set v note_range 1
+      | None => py_set v0 (note_range + 1) 1
+      end = Some (head ++ zeros M) /\
+      zlen head = note_range + 2 /\
+      ((exists c, cur = Some c /\ c <> 0 /\ head = onehot note_range (c - min_note) ++ [1; 0]) \/
+       ((cur = None \/ cur = Some 0) /\ head = zeros note_range ++ [0; 1])).
+  Proof.
+    intros HM Hc v0.
+    assert (Hsil : py_set v0 (note_range + 1) 1 = Some ((zeros note_range ++ [0; 1]) ++ zeros M)).
+    { unfold v0. rewrite zeros_split by lia. rewrite skip_cell by lia.
+      rewrite app_assoc.
+      replace (note_range + 1) with (zlen (zeros note_range ++ [0]))
+        by (rewrite zlen_app, zeros_length; change (zlen [0]) with 1; lia).
+      rewrite set_cell by lia. rewrite <- !app_assoc. reflexivity. }
+    assert (Hlen : zlen (zeros note_range ++ [0; 1]) = note_range + 2).
+    { rewrite zlen_app, zeros_length. change (zlen [0; 1]) with 2. lia. }
+    destruct cur as [c|].
+    - destruct (c =? 0) eqn:Hc0.
+      + eexists. split; [exact Hsil|]. split; [exact Hlen|]. right. split; [right; f_equal; lia|reflexivity].
+      + pose proof (Hc c eq_refl) as Hp. unfold pitch_ok in Hp.
+        exists (onehot note_range (c - min_note) ++ [1; 0]). split.
+        * unfold v0. change (zeros (note_range + (1 + (1 + M)))) with ([] ++ zeros (note_range + (1 + (1 + M)))).
+          replace (c - min_note) with (zlen (@nil Z) + (c - min_note)) at 1 by (rewrite zlen_nil; lia).
+          rewrite set_block by lia. cbn [bind app].
+          replace note_range with (zlen (onehot note_range (c - min_note))) at 2 by (apply onehot_length; lia).
+          rewrite set_cell by lia. rewrite skip_cell by lia. rewrite <- !app_assoc. reflexivity.
+        * split; [rewrite zlen_app, onehot_length by lia; change (zlen [1; 0]) with 2; lia|].
+          left. exists c. repeat split; auto. lia.
+    - eexists. split; [exact Hsil|]. split; [exact Hlen|]. right. split; [now left|reflexivity].
+  Qed.
+
+  Variable dists : list Z.
+  Variable bits : Z.
+  Hypothesis dists_pos : Forall (fun d => 1 <= d) dists.
+  Hypothesis bits_nonneg : 0 <= bits.
+
+  (** The input vector of KeyMelodyEncoderDecoder, for every valid melody and position: the call
+      returns, the vector has input_size entries and is, in order:
+      [pitch cells (note_range)] [note playing; silence] [attack] [ascending] [repeat flag per lookback]
+      [counter bits of the next step] [next step starts a bar] [12 key flags] [12 recent-key flags]. *)
+  Theorem keymelody_input_shape es p :
+    Forall valid es -> 0 <= p < zlen es ->
+    let sub := km_clean (firstn (Z.to_nat (p + 1)) es) in
+    let s := km_scan sub in
+    exists head asc fs keys1 keys2,
+      km_input min_note note_range dists bits es p =
+        Some (head ++ [b2z (km_attack s)] ++ [asc] ++ map b2z fs ++
+              map (counter_bit (p + 1)) (zrange bits) ++ [b2z ((p + 1) mod K_STEPS_PER_BAR =? 0)] ++
+              map b2z keys1 ++ map b2z keys2) /\
+      zlen (head ++ [b2z (km_attack s)] ++ [asc] ++ map b2z fs ++
+            map (counter_bit (p + 1)) (zrange bits) ++ [b2z ((p + 1) mod K_STEPS_PER_BAR =? 0)] ++
+            map b2z keys1 ++ map b2z keys2) = km_input_size note_range dists bits /\
+      (* pitch one-hot + exactly one of (playing, silence) *)
+      zlen head = note_range + 2 /\
+      ((exists c, km_cur s = Some c /\ c <> 0 /\ pitch_ok c /\
+                  head = onehot note_range (c - min_note) ++ [1; 0] /\
+                  is_one_hot (onehot note_range (c - min_note))) \/
+       ((km_cur s = None \/ km_cur s = Some 0) /\ head = zeros note_range ++ [0; 1])) /\
+      (asc = 0 \/ asc = 1 \/ asc = -1) /\
+      Forall2 (fun d f => f = true <-> lb_match Z es p d) dists fs /\
+      Forall (fun x => x = 1 \/ x = -1) (map (counter_bit (p + 1)) (zrange bits)) /\
+      zlen keys1 = K_NOTES_PER_OCTAVE /\ zlen keys2 = K_NOTES_PER_OCTAVE /\
+      existsb (fun b => b) keys1 = true /\ existsb (fun b => b) keys2 = true.
+  Proof.
+    intros Hv Hp sub s.
+    pose proof (zlen_nonneg dists) as Hk. pose proof K_octave_nonneg as HN.
+    assert (Hsubv : Forall valid sub).
+    { apply km_clean_valid. rewrite Forall_forall in *. intros x Hx. apply Hv. eapply In_firstn; eauto. }
+    assert (Hsublen : zlen sub = p + 1).
+    { unfold sub, zlen. rewrite km_clean_length, firstn_length. unfold zlen in Hp. lia. }
+    destruct (km_scan_inv sub Hsubv) as [Hcur Hl3]. fold s in Hcur, Hl3.
+    destruct (repeat_flags_exist Z Z.eqb Zeqb_spec es p dists dists_pos Hp) as (fs & Hfs1 & Hfs2).
+    assert (Hzr : zlen (zrange bits) = bits) by (unfold zlen; rewrite zrange_length; lia).
+    set (keys1 := key_flags sub). set (keys2 := key_flags (km_clean (km_last3 s))).
+    assert (Hk1 : zlen keys1 = K_NOTES_PER_OCTAVE) by apply key_flags_length.
+    assert (Hk2 : zlen keys2 = K_NOTES_PER_OCTAVE) by apply key_flags_length.
+    set (bar := (p + 1) mod K_STEPS_PER_BAR =? 0).
+    (* the size, written as the nest of stage widths *)
+    set (M8 := 0). set (M7 := zlen keys2 + M8). set (M6 := zlen keys1 + M7). set (M5 := zlen [bar] + M6).
+    set (M4 := zlen (zrange bits) + M5). set (M3 := zlen dists + M4). set (M2 := 1 + M3).
+    set (M1 := zlen [km_attack s] + M2).
+    assert (Hsize : km_input_size note_range dists bits = note_range + (1 + (1 + M1))).
+    { unfold km_input_size, km_k, M1, M2, M3, M4, M5, M6, M7, M8. rewrite Hk1, Hk2, Hzr.
+      change (zlen [km_attack s]) with 1. change (zlen [bar]) with 1. lia. }
+    assert (HM : 0 <= M8 /\ 0 <= M7 /\ 0 <= M6 /\ 0 <= M5 /\ 0 <= M4 /\ 0 <= M3 /\ 0 <= M2 /\ 0 <= M1).
+    { unfold M1, M2, M3, M4, M5, M6, M7, M8. rewrite Hk1, Hk2, Hzr.
+      change (zlen [km_attack s]) with 1. change (zlen [bar]) with 1. lia. }
+    destruct HM as (HM8 & HM7 & HM6 & HM5 & HM4 & HM3 & HM2 & HM1).
+    destruct (km_stage1 (km_cur s) M1 HM1 Hcur) as (head & Hst1 & Hhlen & Hhead). cbv zeta in Hst1.
+    (* ascending cell *)
+    set (asc := match km_asc s with Some true => 1 | Some false => -1 | None => 0 end).
+    assert (Hasc : forall pre,
+      match km_asc s with
+      | Some true => py_set (pre ++ zeros (1 + M3)) (zlen pre) 1
+      | Some false => py_set (pre ++ zeros (1 + M3)) (zlen pre) (-1)
+      | None => Some (pre ++ zeros (1 + M3))
+      end = Some ((pre ++ [asc]) ++ zeros M3)).
+    { intros pre. unfold asc. destruct (km_asc s) as [[|]|];
+        [rewrite set_cell by lia|rewrite set_cell by lia|rewrite skip_cell by lia]; now rewrite <- app_assoc. }
+    exists head, asc, fs, keys1, keys2.
+    split.
+    - unfold km_input.
+      assert (Htake : py_take es (p + 1) = firstn (Z.to_nat (p + 1)) es).
+      { unfold py_take. destruct (p + 1 <? 0) eqn:?; [lia|reflexivity]. }
+      rewrite Htake, km_melody_ok.
+      2:{ rewrite Forall_forall in *. intros x Hx. apply Hv. eapply In_firstn; eauto. }
+      cbn [bind]. fold sub. fold s. rewrite Hsize, Hst1. cbn [bind].
+      replace (note_range + 2) with (zlen head) by lia.
+      unfold M1 at 1. rewrite pass_flags_stage by lia. cbn [bind fst snd].
+      unfold M2 at 1. rewrite Hasc. cbn [bind].
+      replace (zlen (head ++ map b2z [km_attack s]) + 1) with (zlen ((head ++ map b2z [km_attack s]) ++ [asc]))
+        by (rewrite (zlen_app _ [asc]); reflexivity).
+      unfold M3 at 1. rewrite (pass_repeat_stage Z Z.eqb es p dists fs _ M4 Hfs1) by lia. cbn [bind].
+      unfold M4 at 1. rewrite Hsublen, pass_counter_stage by lia. cbn [bind].
+      fold bar. unfold M5 at 1. rewrite pass_flags_stage by lia. cbn [bind].
+      fold keys1. unfold M6 at 1. rewrite pass_flags_stage by lia. cbn [bind].
+      rewrite km_melody_ok by (apply pitch_ok_valid; exact Hl3). cbn [bind].
+      fold keys2. unfold M7 at 1. rewrite pass_flags_stage by lia. cbn [bind fst snd].
+      match goal with |- (if ?b then _ else _) = _ => destruct b eqn:Hchk end.
+      + unfold M8. rewrite app_nil_r. cbn [map]. rewrite <- !app_assoc. reflexivity.
+      + exfalso. rewrite !zlen_app, !zlen_map in Hchk.
+        unfold M1, M2, M3, M4, M5, M6, M7, M8 in Hchk.
+        replace (zlen fs) with (zlen dists) in Hchk by (unfold zlen; f_equal; eapply Forall2_len; eauto).
+        change (zlen [asc]) with 1 in Hchk. lia.
+    - split.
+      { rewrite !zlen_app, !zlen_map, Hsize. unfold M1, M2, M3, M4, M5, M6, M7, M8.
+        replace (zlen fs) with (zlen dists) by (unfold zlen; f_equal; eapply Forall2_len; eauto).
+        change (zlen [b2z (km_attack s)]) with 1. change (zlen [asc]) with 1.
+        change (zlen [b2z ((p + 1) mod K_STEPS_PER_BAR =? 0)]) with 1.
+        change (zlen [km_attack s]) with 1. change (zlen [bar]) with 1. change (zlen [b2z bar]) with 1. lia. }
+      split; [exact Hhlen|]. split.
+      { destruct Hhead as [(c & Hc & Hc0 & Hh)|[Hc Hh]]; [left|right; auto].
+        exists c. pose proof (Hcur c Hc) as Hpc.
+        split; [exact Hc|]. split; [exact Hc0|]. split; [exact Hpc|]. split; [exact Hh|].
+        apply onehot_is_one_hot. unfold pitch_ok in Hpc. lia. }
+      split; [unfold asc; destruct (km_asc s) as [[|]|]; auto|].
+      split; [exact Hfs2|]. split.
+      { apply Forall_forall. intros x Hx. apply in_map_iff in Hx. destruct Hx as (i & <- & _).
+        unfold counter_bit. destruct ((p + 1) / 2 ^ i mod 2 =? 0); [now right|now left]. }
+      split; [exact Hk1|]. split; [exact Hk2|]. split; apply key_flags_some.
+  Qed.
+End KeyMelodyInput.
+
+(* a concrete instance (the same vector the real encoder returns for this melody) *)
+Example keymelody_input_nonvacuous :
+  forallb (km_valid 60 3) [60; -2; 62; 60] = true /\
+  km_input 60 3 [1; 2] 2 [60; -2; 62; 60] 3 =
+    Some [1; 0; 0; 1; 0; 1; -1; 0; 0; -1; -1; 0; 1; 0; 0; 1; 0; 1; 0; 1; 0;
+          0; 1; 0; 1; 0; 0; 1; 0; 1; 0; 1; 0; 0; 1; 0] /\
+  km_input_size 3 [1; 2] 2 = 36.
+Proof. vm_compute. repeat split. Qed.
